@@ -31,6 +31,9 @@ type ordEval struct {
 	ints   map[types.Object]int64
 	err    string
 	steps  int
+	// callee resolves a call to a pure helper (params, body); nil = calls are outside the fragment
+	callee func(call *ast.CallExpr) ([]types.Object, *ast.BlockStmt)
+	depth  int
 }
 
 func (e *ordEval) fail(format string, a ...interface{}) {
@@ -93,6 +96,23 @@ func (e *ordEval) evalInt(x ast.Expr) int64 {
 	case *ast.CallExpr:
 		if tv, ok := e.info.Types[v.Fun]; ok && tv.IsType() && len(v.Args) == 1 {
 			return e.evalInt(v.Args[0])
+		}
+		if e.callee != nil && e.depth < 4 {
+			if params, body := e.callee(v); body != nil && len(params) == len(v.Args) {
+				sub := &ordEval{info: e.info, side: e.side, ord: e.ord, slices: e.slices, bools: e.bools, ints: map[types.Object]int64{}, callee: e.callee, depth: e.depth + 1}
+				for k, val := range e.ints {
+					sub.ints[k] = val
+				}
+				for i, po := range params {
+					sub.ints[po] = e.evalInt(v.Args[i])
+				}
+				res, ret := sub.run(body.List)
+				if sub.err != "" || !ret || res.isBool {
+					e.fail("helper %s outside the fragment: %s", types.ExprString(v.Fun), sub.err)
+					return 0
+				}
+				return res.n
+			}
 		}
 		fn := stripSpaces(types.ExprString(v.Fun))
 		if strings.HasSuffix(fn, ".GetValueType") && len(v.Args) == 0 {
@@ -292,9 +312,12 @@ func (e *ordEval) run(list []ast.Stmt) (ordResult, bool) {
 				return res, true
 			}
 		case *ast.SwitchStmt:
+			var tagVal int64
 			if v.Tag != nil {
-				e.fail("tagged switch")
-				return ordResult{}, true
+				tagVal = e.evalInt(v.Tag)
+				if e.err != "" {
+					return ordResult{}, true
+				}
 			}
 			taken := false
 			var def *ast.CaseClause
@@ -305,7 +328,15 @@ func (e *ordEval) run(list []ast.Stmt) (ordResult, bool) {
 					continue
 				}
 				for _, ce := range cl.List {
-					if !taken && e.evalBool(ce) {
+					match := false
+					if !taken {
+						if v.Tag != nil {
+							match = e.evalInt(ce) == tagVal
+						} else {
+							match = e.evalBool(ce)
+						}
+					}
+					if match {
 						taken = true
 						if res, ret := e.run(cl.Body); ret {
 							return res, true
